@@ -1,0 +1,73 @@
+//! Verification hooks. Compiled only with `--features verif`.
+//! Everything here is add-only: re-exports of crate-private items, thin wrappers around
+//! `pub(crate)` functions and a record-only tape of random draws.
+
+use std::cell::RefCell;
+use std::collections::BTreeSet;
+
+pub use crate::amcl::{GroupOrderElement, Pair, PointG1, PointG2, PointG2Inf};
+pub use crate::constants::*;
+pub use crate::hash::{hash_list_to_bignum, hash_to_bignum, ByteOrder};
+pub use crate::helpers::{
+    bignum_to_group_element_reduce, bitwise_or_big_int, bn_rand, bn_rand_range, calc_teq,
+    calc_tne, create_tau_list_expected_values, create_tau_list_values, encode_attribute,
+    four_squares, gen_x, generate_prime_in_range, generate_safe_prime, generate_v_prime_prime,
+    get_pedersen_commitment, random_qr, transform_u32_to_array_of_u8,
+};
+
+use crate::bn::BigNumber;
+use crate::error::Result as ClResult;
+use crate::types::{Accumulator, Tail};
+
+/// One recorded random draw: (source, requested size in bits or 0, value as text).
+pub type TapeEntry = (&'static str, usize, String);
+
+thread_local! {
+    static TAPE: RefCell<Option<Vec<TapeEntry>>> = RefCell::new(None);
+}
+
+/// Start recording random draws made on this thread.
+pub fn tape_start() {
+    TAPE.with(|t| *t.borrow_mut() = Some(Vec::new()));
+}
+
+/// Stop recording and return what was recorded.
+pub fn tape_take() -> Vec<TapeEntry> {
+    TAPE.with(|t| t.borrow_mut().take().unwrap_or_default())
+}
+
+pub(crate) fn tape_record(source: &'static str, bits: usize, value: impl FnOnce() -> String) {
+    TAPE.with(|t| {
+        if let Some(v) = t.borrow_mut().as_mut() {
+            v.push((source, bits, value()));
+        }
+    });
+}
+
+pub fn tail_index_pow(index: u32, gamma: &GroupOrderElement) -> ClResult<GroupOrderElement> {
+    Tail::index_pow(index, gamma)
+}
+
+pub fn tail_new(index: u32, g_dash: &PointG2, gamma: &GroupOrderElement) -> ClResult<Tail> {
+    Tail::new(index, g_dash, gamma)
+}
+
+pub fn tail_accum_indexes(
+    g_dash: &PointG2,
+    gamma: &GroupOrderElement,
+    indexes: &BTreeSet<u32>,
+) -> ClResult<Accumulator> {
+    Tail::accum_indexes(g_dash, gamma, indexes)
+}
+
+pub fn tail_accum_range(
+    g_dash: &PointG2,
+    gamma: &GroupOrderElement,
+    range: std::ops::RangeInclusive<u32>,
+) -> ClResult<Accumulator> {
+    Tail::accum_range(g_dash, gamma, range)
+}
+
+pub fn bignum_dec(b: &BigNumber) -> String {
+    b.to_dec().unwrap_or_default()
+}
